@@ -1,5 +1,6 @@
 '''C12 Sorting permutes whole rows, orders the keys, and is stable.'''
 from sfa.report import Ctx
+from sfa.rules import forwardrules
 from sfa.rules import sortrules
 from sfa.rules import table
 
@@ -10,7 +11,7 @@ LEVEL_TEXT = (
     'unmodified; (c) at each of the 5 np.lexsort sites the key list iterates from the last depth/column down to 0, so depth 0 is the '
     'primary key; (d) each sort result selects labels and values with the same permutation variable and passes the other axis and '
     'the name through; (f) every definition of the permutation is a sort primitive over values data-dependent on the key container, or its own reversal; (e) `ascending` is consumed only by reversing the permutation after the stable ascending sort. '
-    'Not decided: NumPy\'s sort itself, key-function results, NaN ordering.')
+    'Option forwarding: in every sort interface each call to a resolved callee that accepts a parameter named like one of the function\'s own parameters passes it on (confirmed exceptions listed in sfa/rules/forwardrules.py). Not decided: NumPy\'s sort itself, key-function results, NaN ordering.')
 
 CLAIM = dict(
     text=LEVEL_TEXT,
@@ -26,3 +27,4 @@ def run(ctx: Ctx) -> None:
     sortrules.descending_is_reversal(ctx)
     sortrules.whole_rows(ctx)
     sortrules.order_from_keys(ctx)
+    forwardrules.forwarding(ctx, modules=None, prefixes=('sort', '_sort'), suffix='sort', floor=16, what='sort interface')
